@@ -43,6 +43,13 @@ PROGRAMS = {
     "markers-from-callback-3": ("const m = ['a', 'b', 'c'].map(order); const x = await m[0]; const y = await m[1]; const z = await m[2]; x + y + z", {}),
     "markers-from-callback-reverse": ("const m = ['a', 'b', 'c'].map(order); const z = await m[2]; const y = await m[1]; const x = await m[0]; x + y + z", {}),
     "markers-from-callback-then-all": ("const m = Array.from(['a', 'b'], order); const first = await m[0]; const rest = await Promise.all(m); first + rest.join()", {}),
+    # a combinator settles, the program goes on waiting for something else: what the host is told about the losers
+    # (cancellations, exactly once) arrives with a later Suspended result
+    "race-then-order": ("const r = await Promise.race([order('a'), order('b')]); const c = await order('c'); r + '|' + c", {"order_dependent": True}),
+    "race-3-then-order": ("const r = await Promise.race([order('a'), order('b'), order('c')]); const d = await order('d'); r + '|' + d", {"order_dependent": True}),
+    "any-then-order": ("const r = await Promise.any([order('a'), order('b')]); const c = await order('c'); r + '|' + c", {"order_dependent": True}),
+    "race-then-await-earlier": ("const pc = order('c'); const r = await Promise.race([order('a'), order('b')]); const c = await pc; r + '|' + c", {"order_dependent": True}),
+    "race-twice": ("const r1 = await Promise.race([order('a'), order('b')]); const r2 = await Promise.race([order('c'), order('d')]); r1 + '|' + r2", {"order_dependent": True}),
     "order-in-callback": ("let r; try { r = [1, 2].map(x => order('a')); r = 'mapped:' + r.length; } catch (e) { r = 'C:' + (e && e.name); } r", {"twin": False, "order_dependent": True}),
     "cancel-after-race": ("const r = await Promise.race([order('a'), order('b')]); __cancelOrder__(2); __cancelOrder__(1); r", {"order_dependent": True, "twin": False}),
     "cancel-unknown": ("__cancelOrder__(42); const a = await order('a'); a", {"twin": False}),
